@@ -13,6 +13,7 @@ import (
 // (account creation, account keys, balances, storage usage, hashing, signatures, key validation)
 // so that corpus programs can exercise every callback.
 func (w *World) FullHost() *World {
+	w.full = true
 	nextAcct := byte(0x20)
 	keys := map[common.Address][]*stdlib.AccountKey{}
 	w.RI.OnCreateAccount = func(payer runtime.Address, _ interpreter.InvocationContext) (runtime.Address, error) {
